@@ -185,11 +185,11 @@ def axiom_audit(pid, theorems, module=None):
     res = {}
     flat = re.sub(r"\n\s+", " ", out)
     for line in flat.split("\n"):
-        m = re.match(r"'([^']+)' depends on axioms: \[(.*)\]", line)
+        m = re.match(r"'(.+)' depends on axioms: \[(.*)\]", line)
         if m:
             res[m.group(1)] = [a.strip() for a in m.group(2).split(",") if a.strip()]
             continue
-        m = re.match(r"'([^']+)' does not depend on any axioms", line)
+        m = re.match(r"'(.+)' does not depend on any axioms", line)
         if m:
             res[m.group(1)] = []
     bad = {t: ax for t, ax in res.items() if not set(ax) <= ALLOWED_AXIOMS}
